@@ -3,6 +3,8 @@
 -/
 import Krp.Props.C02
 import Krp.System
+import Krp.Lemmas.PlainMsgs
+import Krp.Lemmas.Wiring
 namespace Krp
 open HubSt
 
@@ -152,5 +154,267 @@ theorem C13_nothing_left (d : Nat) (amts : List Nat) (h : amts.sum = d) :
     exact ih (d - a) (by omega)
 
 example : (([(202, 5), (203, 7)] : List (Addr × Nat)).map (·.2)).sum = 12 := by decide
+
+/-! ### End to end: the whole RemoveValidator transaction
+
+  Carried through the message queue for the removed validator `v`:
+  `v` is not registered; the hub's stake on `v` is at most what pending messages will move away
+  from it; no pending message could put stake on `v` or register it again. -/
+
+structure RemInv (v : Addr) (s : Sys) (q : List Msg) : Prop where
+  gone : v ∉ s.reg.vals
+  left : s.chain.deleg v ≤ leavingAll v q
+  ok : AllOk v q
+
+theorem RemInv.step (v : Addr) (s s' : Sys) (m : Msg) (rest subs : List Msg)
+    (inv : RemInv v s (m :: rest)) (hx : s.handle m = .ok (s', subs)) : RemInv v s' (subs ++ rest) := by
+  have hm : ¬ Bad v m := inv.ok m (List.mem_cons_self ..)
+  have hrest : AllOk v rest := fun x hx' => inv.ok x (List.mem_cons_of_mem _ hx')
+  have hleft := inv.left
+  rw [leavingAll_cons] at hleft
+  -- generic conclusion
+  have fin : v ∉ s'.reg.vals → AllOk v subs → s'.chain.deleg v + leaving v m ≤ s.chain.deleg v + leavingAll v subs →
+      RemInv v s' (subs ++ rest) := by
+    intro h1 h2 h3
+    refine ⟨h1, ?_, AllOk.append h2 hrest⟩
+    rw [leavingAll_append]; omega
+  cases m with
+  | bankSend src dst d amt =>
+    simp only [Sys.handle] at hx; exc_norm at hx
+    split at hx
+    · cases hx
+    · rename_i s1 h1
+      unfold Sys.bankMove at h1
+      exc_split at h1
+      cases hx
+      exact fin inv.gone (AllOk.nil v) (by simp [leaving, leavingAll, Sys.setBank])
+  | delegate who v' amt =>
+    simp only [Sys.handle] at hx; exc_norm at hx; exc_split at hx
+    have hne : v ≠ v' := fun h => hm (by simp [Bad, h])
+    exact fin inv.gone (AllOk.nil v) (by simp [leaving, leavingAll, Sys.setBank, upd, hne])
+  | undelegate who v' amt =>
+    simp only [Sys.handle] at hx; exc_norm at hx; exc_split at hx
+    refine fin inv.gone (AllOk.nil v) ?_
+    simp only [leaving, leavingAll, List.map_nil, List.sum_nil, Nat.add_zero]
+    show upd s.chain.deleg v' _ v ≤ _
+    by_cases h : v = v'
+    · subst h; rw [upd_same]; omega
+    · rw [upd_other _ _ _ _ h]; omega
+  | redelegate who src dst amt =>
+    simp only [Sys.handle] at hx; exc_norm at hx; exc_split at hx
+    rename_i _ _ _ _ _ hge
+    have hne : v ≠ dst := fun h => hm (by simp [Bad, h])
+    refine fin inv.gone (AllOk.nil v) ?_
+    simp only [leaving, leavingAll, List.map_nil, List.sum_nil, Nat.add_zero]
+    show upd (upd s.chain.deleg src _) dst _ v + _ ≤ _
+    rw [upd_other _ _ _ _ hne]
+    by_cases hs : src = v
+    · subst hs; simp only [upd_same, if_true]; omega
+    · have : v ≠ src := fun h => hs h.symm
+      rw [upd_other _ _ _ _ this]; simp [hs]
+  | withdrawReward who v' =>
+    simp only [Sys.handle] at hx; exc_norm at hx; exc_split at hx
+    exact fin inv.gone (AllOk.nil v) (by simp [leaving, leavingAll, List.foldl, Sys.setBank])
+  | setWithdrawAddr who a =>
+    simp only [Sys.handle] at hx; exc_norm at hx; exc_split at hx
+    exact fin inv.gone (AllOk.nil v) (by simp [leaving, leavingAll])
+  | wasm a b c d =>
+    have ch := handle_wasm_chain s s' a b c d subs hx
+    have dsame : s'.chain.deleg v = s.chain.deleg v := by rw [ch.1]
+    cases handle_touch s s' _ subs hx with
+    | none h _ _ hb =>
+      have hp : AllPlain subs := by
+        intro x hx'
+        obtain ⟨t, dn, am, he⟩ := hb x hx'
+        subst he; rfl
+      refine fin (by rw [h.reg]; exact inv.gone) hp.ok.1 ?_
+      rw [dsame, hp.ok.2]
+      -- a call addressed to a stub schedules nothing (only proxies addressed to the hub count)
+      have hl : leaving v (Msg.wasm a b c d) = 0 := by
+        rename_i hmm _
+        rcases hmm with h0 | ⟨a', b', c', d', heq, ht⟩
+        · exact absurd rfl (h0 a b c d)
+        · injection heq with _ e2 _ _
+          subst e2
+          cases c with
+          | hub hm' =>
+            cases hm' with
+            | redelegateProxy src plan =>
+              have : ¬ (b = hubA ∧ src = v) := by
+                rintro ⟨hb', _⟩
+                rcases ht with ht | ht <;> (rw [ht] at hb'; cases hb')
+              simp [leaving, this]
+            | _ => simp [leaving]
+          | _ => simp [leaving]
+      omega
+    | hub s1 sender funds hm' heq h1 hc hx' _ _ _ _ g =>
+      injection heq with e1 e2 e3 e4
+      subst e1; subst e2; subst e3; subst e4
+      have hreg : ∀ reg vs, s.hub.registry = some reg → s1.hubEnv.validatorsOf reg = .ok vs → v ∉ vs.map (·.1) := by
+        intro reg vs _ hvs
+        show v ∉ vs.map (·.1)
+        have : s1.validatorsOf reg = .ok vs := hvs
+        unfold Sys.validatorsOf at this
+        split at this
+        · injection this with this; subst this
+          intro hin
+          obtain ⟨y, hy, hy1⟩ := List.mem_map.mp hin
+          have := mem_sortAscAmt' _ _ hy
+          simp only [Sys.regValidatorsRaw, List.mem_map] at this
+          obtain ⟨w', hw', hwe⟩ := this
+          apply inv.gone
+          rw [← h1.reg]
+          have : y.1 = w' := by rw [← hwe]
+          rw [← hy1, this]; exact hw'
+        · cases this
+      have st := hubExec_steer v _ _ _ _ _ _ _ hx' hreg (by
+        intro src plan he p hp hpv
+        subst he
+        exact hm ⟨p, hp, hpv⟩)
+      refine fin (by rw [g]; exact inv.gone) st.1 ?_
+      rw [dsame, st.2]
+      cases hm' <;> simp [leaving]
+    | bsei s1 sender funds tm heq _ hx' _ _ _ _ g =>
+      injection heq with e1 e2 e3 e4
+      subst e1; subst e2; subst e3; subst e4
+      have hp := (bseiExec_plain _ _ _ _ _ _ _ _ _ hx').ok (v := v)
+      exact fin (by rw [g]; exact inv.gone) hp.1 (by rw [dsame, hp.2]; simp [leaving])
+    | stsei blk sender funds tm heq hx' _ _ _ _ g =>
+      injection heq with e1 e2 e3 e4
+      subst e1; subst e2; subst e3; subst e4
+      have hp := (stseiExec_plain _ _ _ _ _ _ _ _ hx').ok (v := v)
+      exact fin (by rw [g]; exact inv.gone) hp.1 (by rw [dsame, hp.2]; simp [leaving])
+    | reward s1 sender funds rm heq _ _ _ hx' _ _ _ _ g =>
+      injection heq with e1 e2 e3 e4
+      subst e1; subst e2; subst e3; subst e4
+      have hp := (rewardExec_plain _ _ _ _ _ _ _ _ _ hx').ok (v := v)
+      exact fin (by rw [g]; exact inv.gone) hp.1 (by rw [dsame, hp.2]; simp [leaving])
+    | disp env sender funds dm heq hx' _ _ _ _ g =>
+      injection heq with e1 e2 e3 e4
+      subst e1; subst e2; subst e3; subst e4
+      have hp := (dispExec_plain _ _ _ _ _ _ _ hx').ok (v := v)
+      exact fin (by rw [g]; exact inv.gone) hp.1 (by rw [dsame, hp.2]; simp [leaving])
+    | reg s1 sender funds rm heq h1 _ _ hx' _ _ _ _ _ =>
+      injection heq with e1 e2 e3 e4
+      subst e1; subst e2; subst e3; subst e4
+      have st := regExec_steer v s1 a rm _ _ hx' (by rw [h1]; exact inv.gone) (by
+        intro v' he hv'
+        subst he
+        exact hm (by simp [Bad, hv']))
+      refine fin st.2 st.1 ?_
+      rw [dsame]
+      have : leaving v (Msg.wasm a regA (Call.reg rm) d) = 0 := by simp [leaving]
+      omega
+
+/-- when the hub has a movable delegation on the validator, the removal does ask for it to be moved -/
+theorem remove_emits (s : Sys) (sender v : Addr) (r' : RegSt) (ms : List Msg)
+    (hx : s.regExec sender (.remove v) = .ok (r', ms)) (hh : s.reg.hub = hubA)
+    (hset : s.chain.delegSet v = true) (hnr : s.chain.noRedelegate v = false) : ms ≠ [] := by
+  simp only [Sys.regExec] at hx
+  exc_norm at hx
+  split at hx
+  · cases hx
+  · split at hx
+    · cases hx
+    · split at hx
+      · cases hx
+      · rename_i msgs hm
+        injection hx with hx; injection hx with h1 h2; subst h1; subst h2
+        have hc : s.reg.hub = hubA ∧ s.chain.delegSet v = true := ⟨hh, hset⟩
+        simp only [hc, and_self, decide_true, Bool.not_true, Bool.false_eq_true, if_false, hh, if_true] at hm
+        rw [if_neg (by simp [hnr])] at hm
+        split at hm
+        · cases hm
+        · injection hm with hm
+          intro h; rw [h] at hm; cases hm
+
+/-- **The whole RemoveValidator transaction.** If the transaction succeeds — the registry's
+    handler, the hub's proxy, every Redelegate on the staking module, and the index update the
+    registry triggers afterwards with everything *it* causes (reward withdrawal, swap, dispatch,
+    re-bonding of rewards) — then it was sent by the registry owner, the validator is out of the
+    registry at the end, and, provided the chain allowed the redelegation, the hub has no stake left
+    on it: nothing in the transaction, re-bonded rewards included, was delegated to it. -/
+theorem C13_end_to_end (s s' : Sys) (sender v : Addr) (c : ChainOK s) (hh : s.reg.hub = hubA)
+    (hallow : s.chain.noRedelegate v = false ∨ s.chain.deleg v = 0)
+    (hx : Sys.run 400 s [.wasm sender regA (.reg (.remove v)) []] = .ok s') :
+    sender = s.reg.owner ∧ v ∉ s'.reg.vals ∧ s'.chain.deleg v = 0 := by
+  simp only [Sys.run] at hx
+  split at hx
+  · cases hx
+  · rename_i s1' subs h1
+    cases handle_touch s s1' _ subs h1 with
+    | none _ hm' _ _ =>
+      rcases hm' with hm' | ⟨_, _, _, _, heq, ht⟩
+      · exact absurd rfl (hm' _ _ _ _)
+      · injection heq with _ e2 _ _
+        rcases ht with ht | ht <;> (rw [ht] at e2; cases e2)
+    | hub _ _ _ _ heq _ _ _ _ _ _ _ _ => injection heq with _ e2 _ _; cases e2
+    | bsei _ _ _ _ heq _ _ _ _ _ _ _ => injection heq with _ e2 _ _; cases e2
+    | stsei _ _ _ _ heq _ _ _ _ _ _ => injection heq with _ e2 _ _; cases e2
+    | reward _ _ _ _ heq _ _ _ _ _ _ _ _ _ => injection heq with _ e2 _ _; cases e2
+    | disp _ _ _ _ heq _ _ _ _ _ _ => injection heq with _ e2 _ _; cases e2
+    | reg s1 sender' funds rm heq hreg hmv hch hx' _ _ _ _ _ =>
+      injection heq with e1 _ e3 e4
+      injection e3 with e3
+      subst e1; subst e3; subst e4
+      simp only [Sys.moveFunds] at hmv
+      injection hmv with hmv; subst hmv
+      obtain ⟨hs, _, hgone, _, hshape⟩ := C13_remove_validator s sender v _ _ hx'
+      have dsame : s1'.chain.deleg v = s.chain.deleg v := by rw [hch]
+      have inv1 : RemInv v s1' (subs ++ []) := by
+        refine ⟨hgone, ?_, ?_⟩
+        · rw [dsame, List.append_nil]
+          rcases hshape with he | ⟨plan, he, hsum, _, _, _⟩
+          · -- nothing was emitted: there was nothing movable
+            subst he
+            by_cases hz : s.chain.deleg v = 0
+            · rw [hz]; exact Nat.zero_le _
+            · exfalso
+              have hset : s.chain.delegSet v = true := by
+                cases hb : s.chain.delegSet v with
+                | true => rfl
+                | false => exact absurd (c.unset v hb) hz
+              have hnr : s.chain.noRedelegate v = false := by
+                rcases hallow with h | h
+                · exact h
+                · exact absurd h hz
+              exact remove_emits s sender v _ _ hx' hh hset hnr rfl
+          · subst he
+            simp only [leavingAll, List.map_cons, List.map_nil, List.sum_cons, List.sum_nil, leaving, hh, and_self,
+              if_true, Nat.add_zero]
+            omega
+        · rw [List.append_nil]
+          rcases hshape with he | ⟨plan, he, _, _, _, htargets⟩
+          · subst he; exact AllOk.nil v
+          · subst he
+            refine AllOk.cons ?_ (AllOk.cons (by simp [Bad]) (AllOk.nil v))
+            simp only [Bad]
+            rintro ⟨t, ht, htv⟩
+            exact hgone (htv ▸ (htargets t ht).1)
+      have fin := run_inv2 (RemInv v) (fun a b r a' sb => RemInv.step v a a' b r sb) 399 s1' _ s' inv1 hx
+      have := fin.left
+      simp only [leavingAll, List.map_nil, List.sum_nil] at this
+      exact ⟨hs, fin.gone, by omega⟩
+
+/-! Non-vacuity: a state with two registered validators and 1000 staked on the first meets the
+    premises, and the whole removal transaction (redelegation, index update, dispatch) succeeds. -/
+def twoValidators : Sys :=
+  { genesisSys with
+    reg := { genesisSys.reg with vals := [201, 202] },
+    chain := { genesisSys.chain with deleg := upd genesisSys.chain.deleg 201 1000,
+                                      delegSet := upd genesisSys.chain.delegSet 201 true },
+    hub := { genesisSys.hub with sBond := 1000 } }
+
+example : ∃ s', Sys.run 400 twoValidators [.wasm 1 regA (.reg (.remove 201)) []] = .ok s' := ⟨_, rfl⟩
+example : twoValidators.reg.hub = hubA ∧ twoValidators.chain.noRedelegate 201 = false := ⟨rfl, rfl⟩
+example : ChainOK twoValidators := by
+  refine ⟨fun w hw => ?_, fun w hw => ?_⟩
+  · show upd _ 201 1000 w = 0
+    have : w ≠ 201 := fun h => hw (by rw [h]; decide)
+    rw [upd_other _ _ _ _ this]; rfl
+  · show upd _ 201 1000 w = 0
+    by_cases h : w = 201
+    · subst h; simp [twoValidators, upd] at hw
+    · rw [upd_other _ _ _ _ h]; rfl
 
 end Krp
